@@ -995,6 +995,8 @@ def prios_lists(leaf_ids, rng, n=4, comp_ids=()):
     if ids:
         a = ids[0]; b = ids[-1]; c = ids[len(ids) // 2]
         out += [[{a: 1}], [{b: -1}], [{a: 1, b: 2}, {c: -1}], [{a: -2, b: 1}], [{a: 1, b: 1, c: 1}], [{a: 2, c: -3}, {}, {b: 1}]]
+        # an id that is no column of the model (ignored, by the statement) ahead of ids that are, in the dictionary's order
+        out += [[{"ghost_id": 1, a: 3, b: 2}], [{"ghost_id": -1, a: 1}, {b: 2, "ghost_id": 5, c: -1}]]
     for _ in range(n):
         k = rng.randint(1, min(3, len(ids))) if ids else 0
         out.append([{i: rng.choice([-3, -2, -1, 1, 2, 3]) for i in rng.sample(ids, k)} for _ in range(rng.randint(1, 3))])
